@@ -6,7 +6,7 @@ ROOT = os.path.dirname(os.path.dirname(os.path.abspath(__file__)))
 LEAN = os.path.join(ROOT, "lean")
 HARNESS = os.path.join(ROOT, "harness")
 CACHE = os.path.join(ROOT, ".cache")
-REPO = "/repo"
+REPO = os.environ.get("VERIF_REPO", "/repo")   # VERIF_REPO: run against a scratch copy (seeded-change trials)
 ALLOWED_AXIOMS = {"propext", "Classical.choice", "Quot.sound"}
 FORBIDDEN = re.compile(r"\bsorry\b|\badmit\b|^axiom |native_decide|implemented_by|\bunsafe |maxHeartbeats 0", re.M)
 
@@ -112,8 +112,22 @@ def cargo_build(profile="dev", cfgs=("dashu_verif",), features=None, target_sub=
         for b in bins:
             cmd += ["--bin", b]
     tdir = os.path.join(CACHE, target_sub)
+    hdir = HARNESS
+    if REPO != "/repo":
+        # the harness manifest has path dependencies on /repo: build from a shadow manifest that
+        # points at the scratch copy instead (sources are shared through a symlink)
+        tag = hashlib.sha1(REPO.encode()).hexdigest()[:10]
+        hdir = os.path.join(CACHE, "harness-alt-" + tag)
+        tdir = os.path.join(CACHE, target_sub + "-alt-" + tag)
+        os.makedirs(os.path.join(hdir, ".cargo"), exist_ok=True)
+        man = open(os.path.join(HARNESS, "Cargo.toml")).read().replace('"/repo/', '"%s/' % REPO.rstrip("/"))
+        open(os.path.join(hdir, "Cargo.toml"), "w").write(man)
+        shutil.copy(os.path.join(HARNESS, "Cargo.lock"), os.path.join(hdir, "Cargo.lock"))
+        shutil.copy(os.path.join(HARNESS, ".cargo", "config.toml"), os.path.join(hdir, ".cargo", "config.toml"))
+        if not os.path.islink(os.path.join(hdir, "src")):
+            os.symlink(os.path.join(HARNESS, "src"), os.path.join(hdir, "src"))
     t0 = time.time()
-    rc, out = run(cmd, cwd=HARNESS, env={"RUSTFLAGS": flags, "CARGO_TARGET_DIR": tdir}, timeout=3600)
+    rc, out = run(cmd, cwd=hdir, env={"RUSTFLAGS": flags, "CARGO_TARGET_DIR": tdir}, timeout=3600)
     sub = "release" if profile == "release" else "debug"
     return rc, out, os.path.join(tdir, sub), time.time() - t0
 
